@@ -5,6 +5,7 @@ import (
 	"encoding/hex"
 	"encoding/json"
 	"fmt"
+	"os"
 	"runtime"
 	"sync"
 )
@@ -126,6 +127,9 @@ func (m *Machine[S]) BFS(ctx *Ctx, depth int, maxStates int) {
 	var transitions, disabled int64
 	completedDepth := 0
 	workers := runtime.GOMAXPROCS(0)
+	if os.Getenv("VERIF_SEQUENTIAL") != "" {
+		workers = 1
+	}
 	const block = 256
 	stopped := false
 	for d := 1; d <= depth && !stopped; d++ {
